@@ -8,6 +8,9 @@ CONTRACT_MODULES = [
     "contracts.rs",
     "contracts.vbptc",
     "contracts.pdu_csbk",
+    "contracts.pdu_other",
+    "contracts.elements",
+    "contracts.pdu_integrity",
 ]
 
 TRUSTED_BASE = [
@@ -47,5 +50,21 @@ PROPS = {
         level_text="Proof: log_multiply equals the GF(2^8) product on all 65536 pairs (symbolic operands, point-wise tables); generate on 9 symbolic octets and a symbolic mask is systematic with zero syndromes at alpha^1..3; check accepts exactly zero-syndrome words (12 free octets, free mask); every 1-3 octet corruption detected by a rank lemma on the parity map extracted from the real generate.",
         level_note="generate/check are verified against log_multiply's contract (stub), which is discharged in the same run. Trusted: CPython, pyvc models, spec/gf256.py (from-scratch carry-less multiply).",
         explanation="contracts on ReedSolomon1294.log_multiply / generate / check",
+    ),
+    "C09": dict(
+        level_text="Proof for all 2^72 / 2^28 / 2^11 messages (symbolic contents, exhaustive paths): encoders yield 128/68/32 bits, extractors return the message, every data row of the transmitted matrix passes the row code's real check, every column obeys its parity rule (both parities for the single-burst code), the CS5 / CRC-8 read back by the library's extractor equals the checksum it computes (CS5 = sum of octets mod 31 as a word-level arithmetic term decided by z3), and the three input forms encode identically.",
+        level_note="The CRC-8 extractor hands the bits out LSB first (pinned by the repository's own test); the read-back clause reads them in that order. Trusted: CPython, pyvc models, gf2 / z3 back ends; CRC-8 through the C05 contract chain.",
+        explanation="contracts on VBPTC12873 / VBPTC6828 / VBPTC3211 encode and extractors, FiveBitChecksum",
+    ),
+    "C03": dict(
+        level_text="Proof per PDU kind with fully symbolic field values: build -> as_bits -> from_bits compares EVERY attribute of the parsed object with the built one (so a field dropped in either direction is a named failed clause), fixed length, identical re-serialisation, bytes view; any right-length bit string (shapes split by the literal discriminator, all other bits free) raises a documented error or decodes to a fixed point of decode-then-encode; every element enumeration of layer2/layer3 elements is total over its width through the real Enum call and _missing_ hooks.",
+        level_note="Large enumerations that do not steer control flow (feature set id, NACK service type, announcement type, answer response) are enumerated through literal shapes: a spread of members in the quick tier, all members in the thorough tier. GPS Info coordinates (floats) are a bounded native contract (4000 random + boundary raw words per run), never counted as proved. Enum calls on symbolic values are executed natively on every value of the argument (finite function), which trusts that _missing_ hooks are deterministic.",
+        explanation="contracts on CSBK, DataHeader, FullLinkControl, ShortLinkControl, PIHeader, Rate12/34/1Data, UDPIPv4CompressedHeader, SlotType, EmbeddedSignalling, ServiceOptions, FragmentSequenceNumber and 31 element enumerations",
+        bounded_parts=[dict(what="FullLinkControl GPS Info longitude/latitude float scaling", bound="4000 random + boundary raw 25/24-bit words per run, seeded by VERIF_SEED", contract="FullLinkControl.gps_bounded")],
+    ),
+    "C04": dict(
+        level_text="Proof: (1) every PDU with a check field built from symbolic fields parses back with its indicator true; (2) slot type and EMB indicators equal Golay / QR codeword membership on ALL 2^20 / 2^16 received words (except the recorded findings); (3) for data headers (5 formats), PI header, short LC and confirmed data blocks (3 rates), every single inverted bit and every non-zero SYMBOLIC burst no longer than the check field at a literal position (codeword order) leads to a decode error, a false indicator, or unchanged field values - symbolic fields, exhaustive paths, XOR-aware solver.",
+        level_note="Quick tier: every single-bit position and burst windows every 8 positions plus the check-field boundary; thorough: every window start. Seven witness classes are recorded as known findings (in-band zero sentinels pinned by the repository's tests; indicators computed over re-serialised instead of received bits) as separate obligations, so the main obligations stay sharp. HRNP checksum: see C12 contracts (shared). CSBK has no indicator (not in the property's list).",
+        explanation="contracts SlotType/EmbeddedSignalling.from_bits.all_words, *.detects_corruption, parsed_back_*_ok clauses of the build_parse contracts",
     ),
 }
